@@ -37,6 +37,10 @@ class Cls:
         self.parts = parts  # for fused UD_ classes: [(auto, rule), ...]
 
 
+class _Continue(Exception):
+    pass
+
+
 class TokfmtModel:
     """Abstract interpreter for the body of tokfmt()."""
 
@@ -87,8 +91,11 @@ class TokfmtModel:
         appended to the accumulator (strings, or the marker VALUE)."""
         before = len(env[self.acc])
         env[self.tokvar] = c
-        for st in self.loop.body:
-            self._exec(st, env, c)
+        try:
+            for st in self.loop.body:
+                self._exec(st, env, c)
+        except _Continue:
+            pass  # `continue` ends this token's turn
         return env[self.acc][before:]
 
     VALUE = object()
@@ -118,6 +125,8 @@ class TokfmtModel:
                 return
         if isinstance(st, ast.Pass):
             return
+        if isinstance(st, ast.Continue):
+            raise _Continue()
         raise AnalysisError(f"tokfmt: statement shape not modelled: {short(st)}")
 
     def _bind(self, t: ast.AST, v: Any, env: Dict[str, Any]) -> None:
